@@ -12,7 +12,10 @@ use crate::endpoint::{Endpoint, Host, Port};
 use crate::task_handle::TaskHandle;
 use crate::ZmqResult;
 
-use futures::{select, FutureExt};
+use futures::stream::FuturesUnordered;
+use futures::{select, FutureExt, StreamExt};
+
+use std::panic::AssertUnwindSafe;
 
 pub(crate) async fn connect(host: &Host, port: Port) -> ZmqResult<(FramedIo, Endpoint)> {
     let raw_socket = TcpStream::connect((host.to_string().as_str(), port)).await?;
@@ -38,6 +41,11 @@ where
     let (stop_channel, stop_callback) = futures::channel::oneshot::channel::<()>();
     let task_handle = async_rt::task::spawn(async move {
         let mut stop_callback = stop_callback.fuse();
+        // The handshakes of accepted connections run concurrently inside this task (they do
+        // not block accepting), so that they end together with it: a connection that is
+        // still in the middle of its handshake when the endpoint is unbound or the socket
+        // is dropped must not be kept open by a task that outlives the socket.
+        let mut handshakes = FuturesUnordered::new();
         loop {
             select! {
                 incoming = listener.accept().fuse() => {
@@ -54,8 +62,10 @@ where
                             )
                         })
                         .map_err(|err| err.into());
-                    async_rt::task::spawn(cback(maybe_accepted));
+                    // A panic in one handshake must stay confined to that connection.
+                    handshakes.push(AssertUnwindSafe(cback(maybe_accepted)).catch_unwind());
                 }
+                _ = handshakes.select_next_some() => {}
                 _ = stop_callback => {
                     break
                 }
